@@ -129,7 +129,12 @@ def fold(results):
             tot["extra"][k] = tot["extra"].get(k, 0) + v
         for k, v in r.get("sets", {}).items():
             tot["sets"].setdefault(k, set()).update(v)
-        tot["samples"].extend(r.get("samples", []))
+    # samples: round-robin over shards so that every workload kind is represented
+    per_shard = [list(r.get("samples", [])) for r in results]
+    while any(per_shard):
+        for lst in per_shard:
+            if lst:
+                tot["samples"].append(lst.pop(0))
     return tot
 
 
@@ -229,7 +234,7 @@ def main(argv=None):
     # ---- evidence
     if not args.replay and not args.no_evidence:
         level = getattr(prop, "LEVEL", "exploration")
-        samples = tot["samples"][:8] or [{"note": "no sample recorded"}]
+        samples = tot["samples"][:12] or [{"note": "no sample recorded"}]
         coverage = {
             "evaluations": tot["evaluations"],
             "distinct_nontrivial": len(tot["signatures"]),
